@@ -25,6 +25,8 @@ const TOP_OTHER: &[&str] = &["unsigned", "age", "x.extra", "redacts", "prev_cont
 const TYPES: &[&str] = &[
     "m.room.member", "m.room.create", "m.room.join_rules", "m.room.power_levels", "m.room.history_visibility", "m.room.redaction",
     "m.room.aliases", "m.room.message", "m.room.membe",
+    // types that are NOT on the specification's list but resemble one that is: all of their content goes
+    "member", "power_levels", "create", "aliases", "m.room.m.room.member", "M.ROOM.MEMBER", "m.room.members", "m.room.member ", "org.example.m.room.create", "",
 ];
 
 fn rules_from_bits(b: u32) -> RedactionRules {
@@ -78,7 +80,7 @@ fn content_universe(ty: &str) -> Vec<&'static str> {
         "m.room.history_visibility" => vec!["history_visibility", "x.unspecified"],
         "m.room.redaction" => vec!["redacts", "reason", "x.unspecified"],
         "m.room.aliases" => vec!["aliases", "x.unspecified"],
-        _ => vec!["body", "msgtype", "membership", "x.unspecified"],
+        _ => vec!["body", "membership", "creator", "aliases", "redacts", "join_rule", "ban", "history_visibility", "x.unspecified"],
     }
 }
 
